@@ -102,6 +102,9 @@ def run(case):
     if not p.ok:
         return violated("%s raised %r" % (desc, p), tags)
     ba = p.value
+    if arr.flags.writeable and L:
+        arr[...] = arr[::-1].copy() if len(set(vals)) > 1 else np.array([(x + 1) % (2 ** b) for x in vals]).astype(arr.dtype)       # the caller reuses his input buffer: the packed array is a snapshot
+        tags.append("input-reused")
     exp_win = [sum(vals[i + j] << (b * j) for j in range(w)) for i in range(L - w + 1)]
 
     def obs_u():
